@@ -153,6 +153,17 @@ def run(prop, tier, seed, replay=None):
                 mark_heads(T, rnd)
                 todo.append(('A-%05d-inorder' % k, T, 'inorder', None, seed + k, 'random'))
             cases = core.pmap(fx.record_case, todo)
+            # the command line: tree file -> transformations -> oracle -> file (binarization done by the tool)
+            cli = []
+            for k in range(24 if tier == 'quick' else 300):
+                T = treeio.random_tree(rnd, nmax=7, maxcons=5, labels=('S', 'NP', 'VP'), edges=('HD', '--', 'NK'),
+                                       tokedges=('--', 'HD', 'NK'), tags=('NN', 'VB'), disc=0.5)
+                for x in T['nodes']:
+                    if not x['tok']:
+                        x['a']['lemma'], x['a']['morph'] = '--', '--'
+                sys_ = 'gap' if gapdeg(T) > 0 else rnd.choice(['gap', 'topdown', 'inorder'])
+                cli.append(('CLI-%04d-%s' % (k, sys_), T, sys_, seed + k))
+            cases += core.pmap(fx.record_cli_case, cli, chunksize=2) if len(cli) >= 200 else [fx.record_cli_case(*a) for a in cli]
         byid = {c['id']: c for c in cases}
         verdicts, wall = core.validate_traces(w, 'Trace_Transitions', cases,
                                               cfg=TRACE_CFG % (dev_text(dev), 'preserve'), chunk=1500)
